@@ -626,10 +626,10 @@ func ruleC02Preconditions(c *Ctx) {
 	}
 	fsFn := func(name string) *FuncInfo { return c.fn("pkg/fs", name) }
 	isStatOf := func(info *types.Info, call *ast.CallExpr, nameMatches func(e ast.Expr) bool) bool {
-		if calleeObj(info, call) != types.Object(stat.Obj) || len(call.Args) < 2 {
-			return false
+		if e := c.statSubject(stat, info, call, 0); e != nil {
+			return nameMatches(e)
 		}
-		return nameMatches(call.Args[1])
+		return false
 	}
 	isDirOf := func(info *types.Info, e ast.Expr, v types.Object) bool {
 		call, ok := ast.Unparen(e).(*ast.CallExpr)
@@ -797,4 +797,65 @@ func ruleC02Preconditions(c *Ctx) {
 		}
 	}
 	_ = cfg.KindBody
+}
+
+// statSubject returns the name expression whose existence `call` establishes when it succeeds: argument 1 of
+// inventory.Stat itself, or the corresponding argument of a lookup helper - a repository function whose every
+// success return (last result nil) is dominated by the success of a Stat (or of another such helper) on one parameter.
+func (c *Ctx) statSubject(stat *FuncInfo, info *types.Info, call *ast.CallExpr, depth int) ast.Expr {
+	fn, _ := calleeObj(info, call).(*types.Func)
+	if fn == nil {
+		return nil
+	}
+	if fn == stat.Obj {
+		if len(call.Args) >= 2 {
+			return call.Args[1]
+		}
+		return nil
+	}
+	if depth >= 2 || !inRepo(fn) {
+		return nil
+	}
+	if c.statHelper == nil {
+		c.statHelper = map[*types.Func]int{}
+	}
+	idx, seen := c.statHelper[fn]
+	if !seen {
+		idx = -1
+		c.statHelper[fn] = -1 // recursion guard
+		g := c.byObj[fn]
+		sig := fn.Type().(*types.Signature)
+		if g != nil && g.Body() != nil && sig.Results().Len() >= 2 && sig.Results().At(sig.Results().Len()-1).Type().String() == "error" {
+			ginfo := g.Pkg.TypesInfo
+			fl := c.flow(g)
+			for i := 0; i < sig.Params().Len() && idx < 0; i++ {
+				pv := sig.Params().At(i)
+				if b, ok := pv.Type().Underlying().(*types.Basic); !ok || b.Kind() != types.String {
+					continue
+				}
+				n, all := 0, true
+				for _, ret := range returnsIn(g) {
+					if len(ret.Results) != sig.Results().Len() || !isNilIdent(ginfo, ret.Results[len(ret.Results)-1]) {
+						continue
+					}
+					n++
+					okk, reach := c.successDominates(fl, ret, func(cl *ast.CallExpr) bool {
+						e := c.statSubject(stat, ginfo, cl, depth+1)
+						return e != nil && objOfIdent(ginfo, e) == types.Object(pv)
+					}, nil)
+					if reach && !okk {
+						all = false
+					}
+				}
+				if n > 0 && all {
+					idx = i
+				}
+			}
+		}
+		c.statHelper[fn] = idx
+	}
+	if idx < 0 || idx >= len(call.Args) {
+		return nil
+	}
+	return call.Args[idx]
 }
